@@ -124,3 +124,6 @@ Definition reqs_eqb := list_eqb shapes_eqb.
 (** effects shipped as numerators over 2^8 *)
 Definition q8 (k : Z) : Q := Qmake k 256.
 Definition q8ll (m : list (list Z)) : list (list Q) := map (map q8) m.
+(** effects far from 1: numerators over 2^8 times 2^e (still dyadic, so the implementation's float arithmetic stays exact) *)
+Definition qpow2 (e : Z) : Q := if e <? 0 then (1 # Z.to_pos (2 ^ (- e)))%Q else inject_Z (2 ^ e).
+Definition qscll (e : Z) (m : list (list Q)) : list (list Q) := map (map (fun x => Qmult x (qpow2 e))) m.
